@@ -110,7 +110,7 @@ class IdentityLinearOperator(ConstantDiagLinearOperator):
     def _mul_constant(
         self: Float[LinearOperator, "*batch M N"], other: Union[float, torch.Tensor]
     ) -> Float[LinearOperator, "*batch M N"]:
-        return ConstantDiagLinearOperator(self.diag_values * other, diag_shape=self.diag_shape)
+        return ConstantDiagLinearOperator(self.diag_values * other.unsqueeze(-1), diag_shape=self.diag_shape)
 
     def _mul_matrix(
         self: Float[LinearOperator, "... #M #N"],
